@@ -145,3 +145,18 @@ Fixpoint bcontains (p s : bytes) : bool :=
 
 Definition bcount (c : byte) (s : bytes) : nat :=
   length (filter (Byte.eqb c) s).
+
+Definition bmem_byte (c : byte) (s : bytes) : bool := existsb (Byte.eqb c) s.
+
+Definition bempty_map (m : amap) : bool := match m with [] => true | _ => false end.
+
+(* lexicographic order on byte strings (Go string comparison) *)
+Fixpoint bytes_leb (a b : bytes) : bool :=
+  match a, b with
+  | [], _ => true
+  | _ :: _, [] => false
+  | x :: a', y :: b' =>
+      if N.ltb (Byte.to_N x) (Byte.to_N y) then true
+      else if N.ltb (Byte.to_N y) (Byte.to_N x) then false
+      else bytes_leb a' b'
+  end.
